@@ -16,6 +16,12 @@ pub(crate) type In = Inner<u8, Val, BH>;
 pub(crate) type Bc = BaseCache<u8, Val, BH>;
 type T = (u64, u32);
 type Ent = TrioArc<ValueEntry<u8, Val>>;
+/// property checks are taken or skipped by a fresh nondeterministic choice (Kani's assert! is assert-then-assume:
+/// behind a failing assertion nothing else would be reported on that path; see unsync_cache.rs)
+macro_rules! chk {
+    ($cond:expr, $msg:expr) => { if kani::any::<bool>() { assert!($cond, $msg) } };
+}
+
 
 pub(crate) static mut NOW: T = (0, 0);
 pub(crate) static mut MOCK: Option<Arc<crate::common::time::clock::Mock>> = None;
@@ -284,71 +290,71 @@ pub(crate) fn scompare(inner: &In, deqs: &Deques<u8>, ec: u64, ws: u64, e: &SG, 
         if k < nkeys {
             let key = k as u8;
             match inner.cache.get(&key) {
-                None => assert!(!e.present[k], "C03,C01,C13,C12,C07: an entry the model keeps is gone from the map (spurious loss / wrong victim / imprecise invalidation)"),
+                None => chk!(!e.present[k], "C03,C01,C13,C12,C07: an entry the model keeps is gone from the map (spurious loss / wrong victim / imprecise invalidation)"),
                 Some(r) => {
                     let ent: &Ent = r.value();
-                    assert!(e.present[k], "C01,C07,C04,C13: an entry the model removes/rejects is still in the map");
-                    assert!(ent.value == e.v[k], "C01: map holds a value other than the latest insert");
-                    assert!(ent.policy_weight() == e.w[k], "C10,C04: entry weight differs from the model");
-                    assert!(ent.last_accessed() == Some(inst(e.la[k])), "C06,C15,C03,C07: last_accessed differs from the model (only insert/update set it to now; an applied read may only move it forward)");
-                    assert!(ent.last_modified() == Some(inst(e.lm[k])), "C05: last_modified differs from the model");
-                    assert!(ent.is_admitted() == e.admitted[k], "C10,C08: is_admitted differs from the model");
-                    assert!(ent.is_dirty() == e.dirty[k], "C05,C06: is_dirty differs from the model");
+                    chk!(e.present[k], "C01,C07,C04,C13: an entry the model removes/rejects is still in the map");
+                    chk!(ent.value == e.v[k], "C01: map holds a value other than the latest insert");
+                    chk!(ent.policy_weight() == e.w[k], "C10,C04: entry weight differs from the model");
+                    chk!(ent.last_accessed() == Some(inst(e.la[k])), "C06,C15,C03,C07: last_accessed differs from the model (only insert/update set it to now; an applied read may only move it forward)");
+                    chk!(ent.last_modified() == Some(inst(e.lm[k])), "C05: last_modified differs from the model");
+                    chk!(ent.is_admitted() == e.admitted[k], "C10,C08: is_admitted differs from the model");
+                    chk!(ent.is_dirty() == e.dirty[k], "C05,C06: is_dirty differs from the model");
                     if e.admitted[k] {
                         adm += 1;
                         sum += ent.policy_weight() as u64;
                         match ent.access_order_q_node() {
                             Some(t) => {
                                 let (p, tag) = t.decompose();
-                                assert!(tag == CacheRegion::MainProbation as usize, "C08: access-order pointer carries the wrong region tag");
+                                chk!(tag == CacheRegion::MainProbation as usize, "C08: access-order pointer carries the wrong region tag");
                                 let el = unsafe { &p.as_ref().element };
-                                assert!(**el.key() == key && el.hash() == IdH::h(key), "C08,C12,C13: entry's access-order node carries another key/hash");
+                                chk!(**el.key() == key && el.hash() == IdH::h(key), "C08,C12,C13: entry's access-order node carries another key/hash");
                                 pao[k] = Some(p);
                             }
-                            None => assert!(false, "C08: admitted entry without access-order node"),
+                            None => chk!(false, "C08: admitted entry without access-order node"),
                         }
                         match ent.write_order_q_node() {
                             Some(p) => {
-                                assert!(e.has_ttl, "C05,C08: write-order node without ttl");
-                                assert!(**unsafe { &p.as_ref().element }.key() == key, "C08,C05: entry's write-order node carries another key");
+                                chk!(e.has_ttl, "C05,C08: write-order node without ttl");
+                                chk!(**unsafe { &p.as_ref().element }.key() == key, "C08,C05: entry's write-order node carries another key");
                                 pwo[k] = Some(p);
                             }
-                            None => assert!(!e.has_ttl, "C05: admitted entry without write-order node although ttl is set"),
+                            None => chk!(!e.has_ttl, "C05: admitted entry without write-order node although ttl is set"),
                         }
                     } else {
-                        assert!(ent.access_order_q_node().is_none() && ent.write_order_q_node().is_none(), "C08,C11: non-admitted entry keeps deque nodes");
+                        chk!(ent.access_order_q_node().is_none() && ent.write_order_q_node().is_none(), "C08,C11: non-admitted entry keeps deque nodes");
                     }
                 }
             }
         }
         k += 1;
     }
-    assert!(ec == e.ec && ws == e.ws, "C10: counters differ from the model");
-    assert!(ec == adm, "C10: entry_count != number of admitted entries physically held");
-    assert!(ws == sum, "C10: weighted_size != sum of the weights of admitted entries");
+    chk!(ec == e.ec && ws == e.ws, "C10: counters differ from the model");
+    chk!(ec == adm, "C10: entry_count != number of admitted entries physically held");
+    chk!(ws == sum, "C10: weighted_size != sum of the weights of admitted entries");
     let (nodes, an, ok) = dq::walk::<KeyHashDate<u8>, { MAXN }>(&deqs.probation);
-    assert!(ok, "C08: access-order deque is not a well-formed list");
-    assert!(an == e.ao_n, "C08,C11: access-order deque length != admitted entries (ghost or missing node)");
+    chk!(ok, "C08: access-order deque is not a well-formed list");
+    chk!(an == e.ao_n, "C08,C11: access-order deque length != admitted entries (ghost or missing node)");
     let mut i = 0;
     while i < MAXN {
         if i < e.ao_n && i < an {
             let k = e.ao[i] as usize;
-            assert!(k < MAXN && nodes[i] == pao[k], "C12: recency order differs from the model");
+            chk!(k < MAXN && nodes[i] == pao[k], "C12: recency order differs from the model");
         }
         i += 1;
     }
     let (wnodes, wn, wok) = dq::walk::<KeyDate<u8>, { MAXN }>(&deqs.write_order);
-    assert!(wok, "C08: write-order deque is not a well-formed list");
-    assert!(wn == e.wo_n, "C08,C11,C05: write-order deque length != admitted entries (iff ttl)");
+    chk!(wok, "C08: write-order deque is not a well-formed list");
+    chk!(wn == e.wo_n, "C08,C11,C05: write-order deque length != admitted entries (iff ttl)");
     let mut i = 0;
     while i < MAXN {
         if i < e.wo_n && i < wn {
             let k = e.wo[i] as usize;
-            assert!(k < MAXN && wnodes[i] == pwo[k], "C05: write order differs from the model");
+            chk!(k < MAXN && wnodes[i] == pwo[k], "C05: write order differs from the model");
         }
         i += 1;
     }
-    assert!(dq::len(&deqs.window) == 0 && dq::len(&deqs.protected) == 0, "C08: unused deques not empty");
+    chk!(dq::len(&deqs.window) == 0 && dq::len(&deqs.protected) == 0, "C08: unused deques not empty");
     kani::cover!(true, "end of comparison reached");
 }
 
@@ -358,7 +364,7 @@ fn sketch_unchanged_or_inc(inner: &In, e: &SG, inc: Option<u64>) {
     let mut s2 = sk::rebuild4(e.sk_words, e.sk_size, &f);
     if let Some(h) = inc { s2.increment(h); }
     let (w2, z2) = sk::snapshot4(&s2);
-    assert!(words[0] == w2[0] && words[1] == w2[1] && words[2] == w2[2] && words[3] == w2[3] && size == z2,
+    chk!(words[0] == w2[0] && words[1] == w2[1] && words[2] == w2[2] && words[3] == w2[3] && size == z2,
             "C14,C15: popularity sketch differs from the model (only applied reads record, exactly once)");
     std::mem::forget(s2);
 }
@@ -383,7 +389,7 @@ fn s_k1_is_expired_wo() {
     let va = if has_va { Some(inst(v)) } else { None };
     let got = is_expired_entry_wo(&ttl, &va, &e, inst(now));
     let want = (has_va && lt(lm, v)) || (has_ttl && le(t_add(lm, d), now));
-    assert!(got == want, "C05,C07: is_expired_entry_wo <=> last_modified < valid_after  or  last_modified + ttl <= now");
+    chk!(got == want, "C05,C07: is_expired_entry_wo <=> last_modified < valid_after  or  last_modified + ttl <= now");
     kani::cover!(got && has_va && has_ttl && !lt(lm, v), "ttl deadline with watermark set");
     kani::cover!(!got && has_va && lm == v, "written at the same reading as invalidate_all: unaffected");
     std::mem::forget(e);
@@ -400,7 +406,7 @@ fn s_k1_is_expired_ao() {
     let va = if has_va { Some(inst(v)) } else { None };
     let got = is_expired_entry_ao(&tti, &va, &e, inst(now));
     let want = (has_va && lt(la, v)) || (has_tti && le(t_add(la, d), now));
-    assert!(got == want, "C06,C07: is_expired_entry_ao <=> last_accessed < valid_after  or  last_accessed + tti <= now");
+    chk!(got == want, "C06,C07: is_expired_entry_ao <=> last_accessed < valid_after  or  last_accessed + tti <= now");
     kani::cover!(got && has_va && has_tti && !lt(la, v), "tti deadline with watermark set");
     kani::cover!(!got && has_va && la == v, "accessed at the same reading as invalidate_all: unaffected");
     std::mem::forget(e);
@@ -418,28 +424,28 @@ fn s_lookup(cfg: &SCfg, j: usize, which: u8) {
     match which {
         0 => {
             let got = b.contains_key(&key);
-            assert!(got == !hidden, "C01,C03,C05,C06,C07: contains_key != (present and not expired/invalidated)");
-            assert!(b.read_op_ch.len() == 0 && b.write_op_ch.len() == 0, "C15,C06,C14: contains_key must not record anything");
+            chk!(got == !hidden, "C01,C03,C05,C06,C07: contains_key != (present and not expired/invalidated)");
+            chk!(b.read_op_ch.len() == 0 && b.write_op_ch.len() == 0, "C15,C06,C14: contains_key must not record anything");
         }
         1 => {
             let got = b.get_with_hash(&key, IdH::h(key));
             if hidden {
-                assert!(got.is_none(), "C01,C05,C06,C07: get returns an expired / invalidated / absent entry");
+                chk!(got.is_none(), "C01,C05,C06,C07: get returns an expired / invalidated / absent entry");
             } else {
-                assert!(got == Some(st.g.v[j]), "C01,C03: get of a live entry does not return its latest value");
+                chk!(got == Some(st.g.v[j]), "C01,C03: get of a live entry does not return its latest value");
             }
-            assert!(b.read_op_ch.len() == 1 && b.write_op_ch.len() == 0, "C14: get records exactly one read op");
+            chk!(b.read_op_ch.len() == 1 && b.write_op_ch.len() == 0, "C14: get records exactly one read op");
             match b.inner.read_op_ch.try_recv() {
                 Ok(ReadOp::Hit(h, ent, ts)) => {
-                    assert!(!hidden, "C14,C06: a hit is recorded for a hidden entry");
-                    assert!(h == IdH::h(key) && ts == inst(e.now), "C06,C14: recorded hit carries the wrong hash or clock reading");
-                    assert!(TrioArc::ptr_eq(&ent, st.ent[j].as_ref().unwrap()), "C06,C12: recorded hit refers to another entry");
+                    chk!(!hidden, "C14,C06: a hit is recorded for a hidden entry");
+                    chk!(h == IdH::h(key) && ts == inst(e.now), "C06,C14: recorded hit carries the wrong hash or clock reading");
+                    chk!(TrioArc::ptr_eq(&ent, st.ent[j].as_ref().unwrap()), "C06,C12: recorded hit refers to another entry");
                 }
                 Ok(ReadOp::Miss(h)) => {
-                    assert!(hidden, "C06,C12: a live hit is recorded as a miss (idle timer / recency not refreshed)");
-                    assert!(h == IdH::h(key), "C14: recorded miss carries the wrong hash");
+                    chk!(hidden, "C06,C12: a live hit is recorded as a miss (idle timer / recency not refreshed)");
+                    chk!(h == IdH::h(key), "C14: recorded miss carries the wrong hash");
                 }
-                Err(_) => assert!(false, "C14: no read op recorded"),
+                Err(_) => chk!(false, "C14: no read op recorded"),
             }
         }
         _ => {
@@ -448,17 +454,17 @@ fn s_lookup(cfg: &SCfg, j: usize, which: u8) {
             let mut seen = 0u32;
             let mut i = 0;
             while i < MAXN {
-                if let Some(r) = it.next() { if *r.key() == key { seen += 1; assert!(*r.value() == st.g.v[j], "C16,C01: iteration yields a value other than the latest insert"); } }
+                if let Some(r) = it.next() { if *r.key() == key { seen += 1; chk!(*r.value() == st.g.v[j], "C16,C01: iteration yields a value other than the latest insert"); } }
                 i += 1;
             }
             drop(it);
-            assert!(seen <= 1, "C16: iteration yields an entry twice");
-            assert!((seen == 1) == !hidden, "C16,C01,C05,C06,C07: iteration filter is_expired_entry != (expired or invalidated): iteration must yield exactly the live entries");
+            chk!(seen <= 1, "C16: iteration yields an entry twice");
+            chk!((seen == 1) == !hidden, "C16,C01,C05,C06,C07: iteration filter is_expired_entry != (expired or invalidated): iteration must yield exactly the live entries");
         }
     }
     let (r, w, rm) = b.inner.cache.verif_stats();
-    assert!(w == 0 && rm == 0, "C01,C15: a lookup must not write to or remove from the map");
-    assert!(which == 2 || r == 1, "C01: a lookup is exactly one atomic map read");
+    chk!(w == 0 && rm == 0, "C01,C15: a lookup must not write to or remove from the map");
+    chk!(which == 2 || r == 1, "C01: a lookup is exactly one atomic map read");
     with_state(&st, |inner, d| {
         scompare(inner, d, inner.entry_count.load(), inner.weighted_size.load(), &e, cfg.n + 1);
         sketch_unchanged_or_inc(inner, &e, None);
@@ -476,23 +482,23 @@ fn s_insert(cfg: &SCfg, j: usize, cls: u8) {
     let nv = Val { cls, data: kani::any() };
     let wn = st.g.weigh(j, nv);
     let (op, ts) = st.b.do_insert_with_hash(Arc::new(key), IdH::h(key), nv);
-    assert!(ts == inst(e.now), "C05,C06: insert stamps another clock reading than now");
+    chk!(ts == inst(e.now), "C05,C06: insert stamps another clock reading than now");
     let (r, w, rm) = st.b.inner.cache.verif_stats();
-    assert!(w == 1 && rm == 0, "C01: insert is exactly one atomic map write");
+    chk!(w == 1 && rm == 0, "C01: insert is exactly one atomic map write");
     let _ = r;
     match op {
         WriteOp::Upsert { key_hash, value_entry, old_weight, new_weight } => {
-            assert!(*key_hash.key == key && key_hash.hash == IdH::h(key), "C01: write op carries the wrong key/hash");
-            assert!(new_weight == wn, "C10,C04: write op carries a weight other than weigher(key, value)");
-            assert!(old_weight == if j < cfg.n { st.g.w[j] } else { 0 }, "C10: write op carries the wrong old weight");
+            chk!(*key_hash.key == key && key_hash.hash == IdH::h(key), "C01: write op carries the wrong key/hash");
+            chk!(new_weight == wn, "C10,C04: write op carries a weight other than weigher(key, value)");
+            chk!(old_weight == if j < cfg.n { st.g.w[j] } else { 0 }, "C10: write op carries the wrong old weight");
             let cur = st.b.inner.cache.get(&key);
-            assert!(cur.is_some() && TrioArc::ptr_eq(cur.as_ref().unwrap().value(), &value_entry), "C01: write op's entry is not the one now in the map");
+            chk!(cur.is_some() && TrioArc::ptr_eq(cur.as_ref().unwrap().value(), &value_entry), "C01: write op's entry is not the one now in the map");
             if j < cfg.n {
-                assert!(TrioArc::ptr_eq(value_entry.entry_info(), st.ent[j].as_ref().unwrap().entry_info()), "C08,C10: update does not share the resident's EntryInfo (deque nodes would be orphaned)");
+                chk!(TrioArc::ptr_eq(value_entry.entry_info(), st.ent[j].as_ref().unwrap().entry_info()), "C08,C10: update does not share the resident's EntryInfo (deque nodes would be orphaned)");
             }
             std::mem::forget(value_entry);
         }
-        WriteOp::Remove(_) => assert!(false, "C01: insert produced a Remove op"),
+        WriteOp::Remove(_) => chk!(false, "C01: insert produced a Remove op"),
     }
     // model: value replaced at once; shared info: dirty, timestamps = now, weight = new
     e.present[j] = true;
@@ -505,7 +511,7 @@ fn s_insert(cfg: &SCfg, j: usize, cls: u8) {
         // counters are maintenance state: unchanged until the op is applied; the (shared) weight of an
         // admitted entry already changed, so compare counters against the model's own bookkeeping only
         let (ec, ws) = (inner.entry_count.load(), inner.weighted_size.load());
-        assert!(ec == e.ec && ws == e.ws, "C10: insert must not touch the counters before maintenance");
+        chk!(ec == e.ec && ws == e.ws, "C10: insert must not touch the counters before maintenance");
         let mut e2 = e;
         if j < cfg.n { e2.ws = e2.ws - st.g.w[j] as u64 + wn as u64; }
         scompare(inner, d, ec, e2.ws, &e2, cfg.n + 1);
@@ -517,7 +523,7 @@ fn s_insert(cfg: &SCfg, j: usize, cls: u8) {
 fn s_invalidate_all(cfg: &SCfg) {
     let st = sbuild(cfg);
     st.b.invalidate_all();
-    assert!(st.b.inner.valid_after() == Some(inst(st.g.now)), "C07: invalidate_all must set the watermark to the current clock reading");
+    chk!(st.b.inner.valid_after() == Some(inst(st.g.now)), "C07: invalidate_all must set the watermark to the current clock reading");
     let mut g2 = st.g;
     g2.va = Some(st.g.now);
     // every resident written at a strictly earlier reading is hidden from now on; same-reading ones are not
@@ -525,12 +531,12 @@ fn s_invalidate_all(cfg: &SCfg) {
     while i < cfg.n {
         let key = i as u8;
         let hid = g2.hidden(i);
-        assert!(st.b.contains_key(&key) == !hid, "C07: after invalidate_all contains_key disagrees with (written strictly before the call => gone)");
-        if lt(st.g.lm[i], st.g.now) { assert!(hid, "C07: an entry written strictly before invalidate_all is still observable"); }
+        chk!(st.b.contains_key(&key) == !hid, "C07: after invalidate_all contains_key disagrees with (written strictly before the call => gone)");
+        if lt(st.g.lm[i], st.g.now) { chk!(hid, "C07: an entry written strictly before invalidate_all is still observable"); }
         i += 1;
     }
     let (_, w, rm) = st.b.inner.cache.verif_stats();
-    assert!(w == 0 && rm == 0, "C07: invalidate_all is lazy: no map mutation");
+    chk!(w == 0 && rm == 0, "C07: invalidate_all is lazy: no map mutation");
     kani::cover!(true, "end reached");
     std::mem::forget(st);
 }
@@ -598,7 +604,7 @@ fn s_handle_upsert(cfg: &SCfg, j: usize, cls: u8, stale: bool) {
         let mut i = 0;
         while i < n { if i < nvict { e.unadmit(i); e.present[i] = false; } i += 1; }
         if admit { e.admit_back(j, new_w); } else { e.present[j] = false; }
-        if fits { assert!(inner.cache.get(&key).is_some(), "C03: a new key that fits must be admitted"); }
+        if fits { chk!(inner.cache.get(&key).is_some(), "C03: a new key that fits must be admitted"); }
         if !fits && new_w > 0 && g.cap.unwrap() >= new_w as u64 {
             kani::cover!(admit && nvict > 0, "admitted over victims");
             kani::cover!(!admit, "newcomer rejected");
@@ -613,7 +619,7 @@ fn s_handle_upsert(cfg: &SCfg, j: usize, cls: u8, stale: bool) {
         let _ = &mut e2;
     }
     if let Some(cap) = st.g.cap {
-        if j >= n && st.g.ws <= cap { assert!(counters.weighted_size <= cap, "C04: admitted weight exceeds max_capacity after applying a fresh insert"); }
+        if j >= n && st.g.ws <= cap { chk!(counters.weighted_size <= cap, "C04: admitted weight exceeds max_capacity after applying a fresh insert"); }
     }
     std::mem::forget(second);
     std::mem::forget(st);
@@ -623,8 +629,8 @@ fn s_handle_upsert(cfg: &SCfg, j: usize, cls: u8, stale: bool) {
 /// entries (with a second update queued, the shared EntryInfo already holds the newer weight, which
 /// the counters must not yet include).
 fn scompare_counters_by_model(inner: &In, deqs: &Deques<u8>, ec: u64, ws: u64, e: &SG, nkeys: usize) {
-    assert!(ec == e.ec, "C10: entry_count after applying the write differs from the model");
-    assert!(ws == e.ws, "C10,C03,C04: weighted_size after applying the write differs from the model (each op must account its own old/new weight)");
+    chk!(ec == e.ec, "C10: entry_count after applying the write differs from the model");
+    chk!(ws == e.ws, "C10,C03,C04: weighted_size after applying the write differs from the model (each op must account its own old/new weight)");
     // structural part via scompare with counters taken from the physical state
     let mut adm = 0u64; let mut sum = 0u64;
     let mut k = 0;
@@ -650,7 +656,7 @@ fn s_apply_reads(cfg: &SCfg, j: usize, hit: bool) {
         let mut deqs = inner.deques.lock().expect("lock poisoned");
         inner.apply_reads(&mut deqs, 1);
     }
-    assert!(st.b.read_op_ch.len() == 0, "C09: apply_reads must drain what it was asked to");
+    chk!(st.b.read_op_ch.len() == 0, "C09: apply_reads must drain what it was asked to");
     if hit {
         // an applied read may extend the idle deadline, never shorten it (C03) nor drag a fresh entry below the watermark (C07)
         if le(e.la[j], ts) { e.la[j] = ts; }
@@ -671,10 +677,10 @@ fn s_handle_remove(cfg: &SCfg, j: usize) {
     let inner = &*st.b.inner;
     let key = j as u8;
     let kv = st.b.remove_entry(&key);
-    assert!(kv.is_some() == (j < cfg.n), "C07: remove_entry result");
+    chk!(kv.is_some() == (j < cfg.n), "C07: remove_entry result");
     let (_, w, rm) = inner.cache.verif_stats();
-    assert!(w == 0 && rm == 1, "C07: invalidate is exactly one atomic map removal");
-    assert!(inner.cache.get(&key).is_none(), "C07: invalidated key still in the map");
+    chk!(w == 0 && rm == 1, "C07: invalidate is exactly one atomic map removal");
+    chk!(inner.cache.get(&key).is_none(), "C07: invalidated key still in the map");
     let mut counters = EvictionCounters::new(inner.entry_count.load(), inner.weighted_size.load());
     if let Some(kv) = kv {
         let mut deqs = inner.deques.lock().expect("lock poisoned");
@@ -713,7 +719,7 @@ fn s_evict_lru(cfg: &SCfg, grow: u32) {
     with_state(&st, |inner, d| {
         scompare(inner, d, counters.entry_count, counters.weighted_size, &e, n + 1);
     });
-    if let Some(cap) = g.cap { assert!(counters.weighted_size <= cap || e.ao_n == 0, "C04: excess over max_capacity not removed by maintenance"); }
+    if let Some(cap) = g.cap { chk!(counters.weighted_size <= cap || e.ao_n == 0, "C04: excess over max_capacity not removed by maintenance"); }
     std::mem::forget(st);
 }
 
@@ -818,24 +824,24 @@ fn l_upsert_update(cfg: &SCfg, j: usize) {
         let freq = inner.frequency_sketch.read().expect("lock poisoned");
         inner.handle_upsert(kh, ent, old_w, new_w, &mut deqs, &freq, &mut counters);
     }
-    assert!(counters.entry_count == g.ec, "C10,C04,C03,C11: applying an update must not change entry_count (the updated entry was dropped or counted twice: capacity accounting and the entry itself are lost)");
-    assert!(counters.weighted_size == ws0.saturating_sub(old_w as u64).saturating_add(new_w as u64),
+    chk!(counters.entry_count == g.ec, "C10,C04,C03,C11: applying an update must not change entry_count (the updated entry was dropped or counted twice: capacity accounting and the entry itself are lost)");
+    chk!(counters.weighted_size == ws0.saturating_sub(old_w as u64).saturating_add(new_w as u64),
             "C10,C03,C04: an applied update must move weighted_size by exactly (new - old) of ITS OWN op");
     let e = st.ent[j].as_ref().unwrap();
-    assert!(inner.cache.get(&(j as u8)).is_some(), "C03,C01,C11: applying the update of an admitted entry must not drop it from the map (whatever its new weight: the excess is evicted from the LRU end afterwards)");
-    assert!(!e.is_dirty() && e.is_admitted(), "C05,C06: applied update leaves the entry clean and admitted");
-    assert!(e.last_accessed() == Some(inst(g.la[j])) && e.last_modified() == Some(inst(g.lm[j])),
+    chk!(inner.cache.get(&(j as u8)).is_some(), "C03,C01,C11: applying the update of an admitted entry must not drop it from the map (whatever its new weight: the excess is evicted from the LRU end afterwards)");
+    chk!(!e.is_dirty() && e.is_admitted(), "C05,C06: applied update leaves the entry clean and admitted");
+    chk!(e.last_accessed() == Some(inst(g.la[j])) && e.last_modified() == Some(inst(g.lm[j])),
             "C06,C05: maintenance must not move last_accessed / last_modified (deadlines run from the update, not from its late application)");
     // recency: j is now the MRU node, the others keep their relative order
     {
         let deqs = inner.deques.lock().expect("lock poisoned");
         let (nodes, an, ok) = dq::walk::<KeyHashDate<u8>, { MAXN }>(&deqs.probation);
-        assert!(ok && an == cfg.n, "C08: access-order deque damaged by an applied update");
-        assert!(nodes[cfg.n - 1] == ao_ptr(e), "C12: an applied update must make the entry the most recently used");
-        if cfg.n == 2 { assert!(nodes[0] == ao_ptr(st.ent[1 - j].as_ref().unwrap()), "C12: other resident displaced"); }
+        chk!(ok && an == cfg.n, "C08: access-order deque damaged by an applied update");
+        chk!(nodes[cfg.n - 1] == ao_ptr(e), "C12: an applied update must make the entry the most recently used");
+        if cfg.n == 2 { chk!(nodes[0] == ao_ptr(st.ent[1 - j].as_ref().unwrap()), "C12: other resident displaced"); }
         let (wn, wcnt, wok) = dq::walk::<KeyDate<u8>, { MAXN }>(&deqs.write_order);
-        assert!(wok && wcnt == if cfg.ttl { cfg.n } else { 0 }, "C08,C05: write-order deque damaged by an applied update");
-        if cfg.ttl { assert!(wn[cfg.n - 1] == e.write_order_q_node(), "C05: an applied update must move the entry to the back of the write order"); }
+        chk!(wok && wcnt == if cfg.ttl { cfg.n } else { 0 }, "C08,C05: write-order deque damaged by an applied update");
+        if cfg.ttl { chk!(wn[cfg.n - 1] == e.write_order_q_node(), "C05: an applied update must move the entry to the back of the write order"); }
     }
     kani::cover!(old_w != info_w && new_w != info_w, "stale op: recorded weights differ from the shared info");
     kani::cover!(true, "end reached");
@@ -866,19 +872,19 @@ fn l_upsert_admit_fits(cfg: &SCfg) {
         let freq = inner.frequency_sketch.read().expect("lock poisoned");
         inner.handle_upsert(KeyHash::new(Arc::clone(&k), IdH::h(key)), TrioArc::clone(&ent), 0, new_w, &mut deqs, &freq, &mut counters);
     }
-    assert!(inner.cache.get(&key).is_some(), "C03: a new key that fits in the remaining capacity must be admitted");
-    assert!(ent.is_admitted() && !ent.is_dirty(), "C03,C10: admitted entry must be flagged admitted and clean");
-    assert!(counters.entry_count == g.ec + 1, "C10: admission must count the entry once");
-    assert!(counters.weighted_size == g.ws.saturating_add(new_w as u64), "C10,C03,C04: admission must add the weight recorded in ITS OWN op");
+    chk!(inner.cache.get(&key).is_some(), "C03: a new key that fits in the remaining capacity must be admitted");
+    chk!(ent.is_admitted() && !ent.is_dirty(), "C03,C10: admitted entry must be flagged admitted and clean");
+    chk!(counters.entry_count == g.ec + 1, "C10: admission must count the entry once");
+    chk!(counters.weighted_size == g.ws.saturating_add(new_w as u64), "C10,C03,C04: admission must add the weight recorded in ITS OWN op");
     let mut i = 0;
-    while i < n { assert!(inner.cache.get(&(i as u8)).is_some(), "C03,C12: admission with room must not evict anything"); i += 1; }
+    while i < n { chk!(inner.cache.get(&(i as u8)).is_some(), "C03,C12: admission with room must not evict anything"); i += 1; }
     {
         let deqs = inner.deques.lock().expect("lock poisoned");
         let (nodes, an, ok) = dq::walk::<KeyHashDate<u8>, { MAXN }>(&deqs.probation);
-        assert!(ok && an == n + 1 && nodes[n] == ao_ptr(&ent), "C12,C08: admitted entry must be appended as most recently used");
+        chk!(ok && an == n + 1 && nodes[n] == ao_ptr(&ent), "C12,C08: admitted entry must be appended as most recently used");
         let (wn, wcnt, wok) = dq::walk::<KeyDate<u8>, { MAXN }>(&deqs.write_order);
-        assert!(wok && wcnt == if cfg.ttl { n + 1 } else { 0 }, "C05,C08: write-order node iff ttl");
-        if cfg.ttl { assert!(wn[n] == ent.write_order_q_node(), "C05: admitted entry appended to the write order"); }
+        chk!(wok && wcnt == if cfg.ttl { n + 1 } else { 0 }, "C05,C08: write-order node iff ttl");
+        if cfg.ttl { chk!(wn[n] == ent.write_order_q_node(), "C05: admitted entry appended to the write order"); }
     }
     kani::cover!(new_w != info_w, "stale op");
     kani::cover!(true, "end reached");
@@ -909,11 +915,11 @@ fn l_upsert_admission(cfg: &SCfg) {
         inner.handle_upsert(KeyHash::new(Arc::clone(&k), IdH::h(key)), TrioArc::clone(&ent), 0, 1, &mut deqs, &freq, &mut counters);
     }
     let admit = fc > f0; // the shortest sufficient LRU prefix of unit weights is {key 0}
-    assert!(inner.cache.get(&key).is_some() == admit, "C13: newcomer admitted iff strictly more popular than the LRU victim");
-    assert!(inner.cache.get(&0u8).is_some() == !admit, "C13,C12: the victim is the least recently used resident, and only on admission");
-    if n == 2 { assert!(inner.cache.get(&1u8).is_some(), "C12,C13: a more recently used resident must not be touched"); }
-    assert!(counters.entry_count == g.ec && counters.weighted_size == g.ws, "C10,C04: admission swaps one unit for one unit; rejection changes nothing");
-    assert!(ent.is_admitted() == admit, "C10: admitted flag");
+    chk!(inner.cache.get(&key).is_some() == admit, "C13: newcomer admitted iff strictly more popular than the LRU victim");
+    chk!(inner.cache.get(&0u8).is_some() == !admit, "C13,C12: the victim is the least recently used resident, and only on admission");
+    if n == 2 { chk!(inner.cache.get(&1u8).is_some(), "C12,C13: a more recently used resident must not be touched"); }
+    chk!(counters.entry_count == g.ec && counters.weighted_size == g.ws, "C10,C04: admission swaps one unit for one unit; rejection changes nothing");
+    chk!(ent.is_admitted() == admit, "C10: admitted flag");
     kani::cover!(admit, "admitted over victims");
     kani::cover!(!admit, "newcomer rejected");
     kani::cover!(true, "end reached");
@@ -932,10 +938,10 @@ fn l_evict_lru_exact(cfg: &SCfg) {
         let mut deqs = inner.deques.lock().expect("lock poisoned");
         inner.evict_lru_entries(&mut deqs, 500, need, &mut counters);
     }
-    assert!(inner.cache.get(&0u8).is_none(), "C12,C04: the least recently used entry must be evicted first");
-    assert!(inner.cache.get(&1u8).is_some(), "C12: eviction must stop as soon as the required weight is freed (shortest prefix)");
-    assert!(counters.entry_count == g.ec - 1 && counters.weighted_size == g.ws - need, "C10: eviction must give back exactly the evicted entry");
-    assert!(!st.ent[0].as_ref().unwrap().is_admitted() && st.ent[0].as_ref().unwrap().access_order_q_node().is_none(), "C08,C11: evicted entry keeps nodes");
+    chk!(inner.cache.get(&0u8).is_none(), "C12,C04: the least recently used entry must be evicted first");
+    chk!(inner.cache.get(&1u8).is_some(), "C12: eviction must stop as soon as the required weight is freed (shortest prefix)");
+    chk!(counters.entry_count == g.ec - 1 && counters.weighted_size == g.ws - need, "C10: eviction must give back exactly the evicted entry");
+    chk!(!st.ent[0].as_ref().unwrap().is_admitted() && st.ent[0].as_ref().unwrap().access_order_q_node().is_none(), "C08,C11: evicted entry keeps nodes");
     kani::cover!(true, "end reached");
     std::mem::forget(st);
 }
@@ -951,9 +957,9 @@ fn l_purge_one(cfg: &SCfg) {
         inner.evict_expired(&mut deqs, 500, &mut counters);
     }
     let hid = g.hidden(0);
-    assert!(inner.cache.get(&0u8).is_none() == hid, "C03,C05,C06,C07: maintenance removes an entry iff it is expired or invalidated");
-    assert!(counters.entry_count == if hid { 0 } else { 1 } && counters.weighted_size == if hid { 0 } else { g.w[0] as u64 }, "C10: purge must give back count and weight of exactly what it removed");
-    assert!(st.ent[0].as_ref().unwrap().is_admitted() == !hid, "C10,C08: admitted flag after purge");
+    chk!(inner.cache.get(&0u8).is_none() == hid, "C03,C05,C06,C07: maintenance removes an entry iff it is expired or invalidated");
+    chk!(counters.entry_count == if hid { 0 } else { 1 } && counters.weighted_size == if hid { 0 } else { g.w[0] as u64 }, "C10: purge must give back count and weight of exactly what it removed");
+    chk!(st.ent[0].as_ref().unwrap().is_admitted() == !hid, "C10,C08: admitted flag after purge");
     kani::cover!(true, "end reached");
     std::mem::forget(st);
 }
@@ -975,18 +981,18 @@ fn l_apply_reads_hit(cfg: &SCfg, j: usize) {
     }
     let e = st.ent[j].as_ref().unwrap();
     let want = if le(g.la[j], ts) { ts } else { g.la[j] };
-    assert!(e.last_accessed() == Some(inst(want)), "C03,C07,C06: an applied read must set last_accessed to max(old, recorded reading): never backwards (a stale hit would shorten the idle deadline of an updated entry or drag a re-inserted key below the invalidate_all watermark)");
-    assert!(e.last_modified() == Some(inst(g.lm[j])), "C05: apply_reads must not touch last_modified");
+    chk!(e.last_accessed() == Some(inst(want)), "C03,C07,C06: an applied read must set last_accessed to max(old, recorded reading): never backwards (a stale hit would shorten the idle deadline of an updated entry or drag a re-inserted key below the invalidate_all watermark)");
+    chk!(e.last_modified() == Some(inst(g.lm[j])), "C05: apply_reads must not touch last_modified");
     if cfg.n == 2 {
         let o = st.ent[1 - j].as_ref().unwrap();
-        assert!(o.last_accessed() == Some(inst(g.la[1 - j])), "C06: a read of one key must not touch another key's idle timer");
+        chk!(o.last_accessed() == Some(inst(g.la[1 - j])), "C06: a read of one key must not touch another key's idle timer");
     }
     {
         let deqs = inner.deques.lock().expect("lock poisoned");
         let (nodes, an, ok) = dq::walk::<KeyHashDate<u8>, { MAXN }>(&deqs.probation);
-        assert!(ok && an == cfg.n && nodes[cfg.n - 1] == ao_ptr(e), "C12: an applied hit makes the entry most recently used");
+        chk!(ok && an == cfg.n && nodes[cfg.n - 1] == ao_ptr(e), "C12: an applied hit makes the entry most recently used");
     }
-    assert!(st.b.read_op_ch.len() == 0 && inner.entry_count.load() == g.ec && inner.weighted_size.load() == g.ws, "C10,C09: apply_reads drains its op and leaves the counters alone");
+    chk!(st.b.read_op_ch.len() == 0 && inner.entry_count.load() == g.ec && inner.weighted_size.load() == g.ws, "C10,C09: apply_reads drains its op and leaves the counters alone");
     kani::cover!(!le(g.la[j], ts), "stale hit (recorded before the entry's last access)");
     kani::cover!(le(g.la[j], ts), "fresh hit");
     std::mem::forget(st);
@@ -1000,20 +1006,20 @@ fn l_remove(cfg: &SCfg, j: usize) {
     let key = j as u8;
     let kv = st.b.remove_entry(&key).unwrap();
     let (_, w, rm) = inner.cache.verif_stats();
-    assert!(w == 0 && rm == 1 && inner.cache.get(&key).is_none(), "C07: invalidate is one atomic map removal and the key is gone at once");
+    chk!(w == 0 && rm == 1 && inner.cache.get(&key).is_none(), "C07: invalidate is one atomic map removal and the key is gone at once");
     let mut counters = EvictionCounters::new(g.ec, g.ws);
     {
         let mut deqs = inner.deques.lock().expect("lock poisoned");
         In::handle_remove(&mut deqs, kv.entry, &mut counters);
         let (_, an, ok) = dq::walk::<KeyHashDate<u8>, { MAXN }>(&deqs.probation);
-        assert!(ok && an == cfg.n - 1, "C08,C11: removed entry's access-order node must be unlinked");
+        chk!(ok && an == cfg.n - 1, "C08,C11: removed entry's access-order node must be unlinked");
         let (_, wn, wok) = dq::walk::<KeyDate<u8>, { MAXN }>(&deqs.write_order);
-        assert!(wok && wn == if cfg.ttl { cfg.n - 1 } else { 0 }, "C08,C11: removed entry's write-order node must be unlinked");
+        chk!(wok && wn == if cfg.ttl { cfg.n - 1 } else { 0 }, "C08,C11: removed entry's write-order node must be unlinked");
     }
-    assert!(counters.entry_count == g.ec - 1 && counters.weighted_size == g.ws - g.w[j] as u64, "C10: removal must give back exactly the removed entry");
+    chk!(counters.entry_count == g.ec - 1 && counters.weighted_size == g.ws - g.w[j] as u64, "C10: removal must give back exactly the removed entry");
     let e = st.ent[j].as_ref().unwrap();
-    assert!(!e.is_admitted() && e.access_order_q_node().is_none() && e.write_order_q_node().is_none(), "C08: removed entry keeps node pointers");
-    if cfg.n == 2 { assert!(inner.cache.get(&((1 - j) as u8)).is_some(), "C07: invalidate(k) must not affect other keys"); }
+    chk!(!e.is_admitted() && e.access_order_q_node().is_none() && e.write_order_q_node().is_none(), "C08: removed entry keeps node pointers");
+    if cfg.n == 2 { chk!(inner.cache.get(&((1 - j) as u8)).is_some(), "C07: invalidate(k) must not affect other keys"); }
     kani::cover!(true, "end reached");
     std::mem::forget(st);
 }
@@ -1068,10 +1074,10 @@ fn s_eviction_counters_never_overflow() {
     kani::assume(n <= 1 && ec >= n && ec < u64::MAX);
     let mut c = EvictionCounters::new(ec, ws);
     c.saturating_sub(n, w);
-    assert!(c.entry_count == ec - n && c.weighted_size == ws.saturating_sub(w as u64), "C10,C08: EvictionCounters::saturating_sub must saturate, never wrap or panic");
+    chk!(c.entry_count == ec - n && c.weighted_size == ws.saturating_sub(w as u64), "C10,C08: EvictionCounters::saturating_sub must saturate, never wrap or panic");
     let mut c = EvictionCounters::new(ec, ws);
     c.saturating_add(n, w);
-    assert!(c.entry_count == ec + n && c.weighted_size == ws.saturating_add(w as u64), "C10,C08: EvictionCounters::saturating_add must saturate, never wrap or panic");
+    chk!(c.entry_count == ec + n && c.weighted_size == ws.saturating_add(w as u64), "C10,C08: EvictionCounters::saturating_add must saturate, never wrap or panic");
     kani::cover!(ws < w as u64, "weight larger than the total");
 }
 
@@ -1137,15 +1143,15 @@ fn s_admit_lemma(n: usize) {
     let (nodes, _, _) = dq::walk::<KeyHashDate<u8>, { MAXN }>(&deqs.probation);
     match r {
         AdmissionResult::Admitted { victim_nodes, skipped_nodes } => {
-            assert!(want, "C13: sync admit() admitted although no covering LRU prefix exists or the candidate is not strictly more popular");
-            assert!(victim_nodes.len() == nv && skipped_nodes.is_empty(), "C12,C13: sync victims are not the shortest sufficient LRU prefix");
+            chk!(want, "C13: sync admit() admitted although no covering LRU prefix exists or the candidate is not strictly more popular");
+            chk!(victim_nodes.len() == nv && skipped_nodes.is_empty(), "C12,C13: sync victims are not the shortest sufficient LRU prefix");
             let mut i = 0;
-            while i < MAXN { if i < nv { assert!(Some(victim_nodes[i]) == nodes[i], "C12: sync victims are not the least recently used residents in LRU order"); } i += 1; }
+            while i < MAXN { if i < nv { chk!(Some(victim_nodes[i]) == nodes[i], "C12: sync victims are not the least recently used residents in LRU order"); } i += 1; }
             std::mem::forget(victim_nodes); std::mem::forget(skipped_nodes);
         }
         AdmissionResult::Rejected { skipped_nodes } => {
-            assert!(!want, "C13: sync admit() rejected although the covering LRU prefix is strictly less popular");
-            assert!(skipped_nodes.is_empty(), "C13: nothing to skip when every node has its map entry");
+            chk!(!want, "C13: sync admit() rejected although the covering LRU prefix is strictly less popular");
+            chk!(skipped_nodes.is_empty(), "C13: nothing to skip when every node has its map entry");
             std::mem::forget(skipped_nodes);
         }
     }
@@ -1176,12 +1182,12 @@ fn l_apply_writes_update_then_remove() {
         inner.apply_writes(&mut deqs, 2, &mut counters);
         let (_, an, ok) = dq::walk::<KeyHashDate<u8>, { MAXN }>(&deqs.probation);
         let (_, wn, wok) = dq::walk::<KeyDate<u8>, { MAXN }>(&deqs.write_order);
-        assert!(ok && wok && an == 0 && wn == 0, "C08,C11,C07: after applying update + removal no deque node of the key may remain");
+        chk!(ok && wok && an == 0 && wn == 0, "C08,C11,C07: after applying update + removal no deque node of the key may remain");
     }
-    assert!(st.b.write_op_ch.len() == 0, "C09: apply_writes must drain what it was asked to");
-    assert!(counters.entry_count == 0 && counters.weighted_size == 0, "C10,C07: update then invalidate of the only entry must leave the counters at zero");
-    assert!(inner.cache.get(&0u8).is_none(), "C07: invalidated key must stay gone after maintenance");
-    assert!(!st.ent[0].as_ref().unwrap().is_admitted(), "C10: removed entry still flagged admitted");
+    chk!(st.b.write_op_ch.len() == 0, "C09: apply_writes must drain what it was asked to");
+    chk!(counters.entry_count == 0 && counters.weighted_size == 0, "C10,C07: update then invalidate of the only entry must leave the counters at zero");
+    chk!(inner.cache.get(&0u8).is_none(), "C07: invalidated key must stay gone after maintenance");
+    chk!(!st.ent[0].as_ref().unwrap().is_admitted(), "C10: removed entry still flagged admitted");
     kani::cover!(true, "end reached");
     std::mem::forget(st);
 }
@@ -1203,20 +1209,20 @@ fn l_sync_round(ttl: bool, tti: bool, late: bool) {
     // (late: the write stays queued while the clock advances; deadlines still run from the insert)
     if late { set_now((g.now.0 + 7, 3)); }
     inner.sync(MAX_SYNC_REPEATS_PUB);
-    assert!(st.b.read_op_ch.len() == 0 && st.b.write_op_ch.len() == 0, "C09: sync must drain both queues");
+    chk!(st.b.read_op_ch.len() == 0 && st.b.write_op_ch.len() == 0, "C09: sync must drain both queues");
     let w1 = g.weigh(1, nv);
-    assert!(inner.entry_count.load() == 2 && inner.weighted_size.load() == g.ws + w1 as u64, "C10,C03: after sync the counters equal what is physically held");
+    chk!(inner.entry_count.load() == 2 && inner.weighted_size.load() == g.ws + w1 as u64, "C10,C03: after sync the counters equal what is physically held");
     let e1 = inner.cache.get(&1u8);
-    assert!(e1.is_some(), "C03: a new key in an unbounded cache must survive maintenance");
+    chk!(e1.is_some(), "C03: a new key in an unbounded cache must survive maintenance");
     let e1 = TrioArc::clone(e1.unwrap().value());
-    assert!(e1.value == nv && e1.is_admitted() && !e1.is_dirty(), "C01,C10: the inserted entry is admitted with its value");
-    assert!(e1.last_modified() == Some(inst(g.now)) && e1.last_accessed() == Some(inst(g.now)), "C05,C06: deadlines of the new entry run from the insert");
+    chk!(e1.value == nv && e1.is_admitted() && !e1.is_dirty(), "C01,C10: the inserted entry is admitted with its value");
+    chk!(e1.last_modified() == Some(inst(g.now)) && e1.last_accessed() == Some(inst(g.now)), "C05,C06: deadlines of the new entry run from the insert");
     let e0 = st.ent[0].as_ref().unwrap();
-    assert!(e0.last_accessed() == Some(inst(if le(g.la[0], ts) { ts } else { g.la[0] })), "C06,C03: the applied read moves last_accessed forward only");
+    chk!(e0.last_accessed() == Some(inst(if le(g.la[0], ts) { ts } else { g.la[0] })), "C06,C03: the applied read moves last_accessed forward only");
     {
         let deqs = inner.deques.lock().expect("lock poisoned");
         let (nodes, an, ok) = dq::walk::<KeyHashDate<u8>, { MAXN }>(&deqs.probation);
-        assert!(ok && an == 2 && nodes[0] == ao_ptr(e0) && nodes[1] == ao_ptr(&e1), "C12: recency order after sync = order in which maintenance applied reads then writes");
+        chk!(ok && an == 2 && nodes[0] == ao_ptr(e0) && nodes[1] == ao_ptr(&e1), "C12: recency order after sync = order in which maintenance applied reads then writes");
     }
     kani::cover!(true, "end reached");
     std::mem::forget(e1);
@@ -1235,9 +1241,9 @@ fn l_sync_idle_over_capacity() {
     let g = st.g;
     let inner = &*st.b.inner;
     inner.sync(MAX_SYNC_REPEATS_PUB);
-    assert!(inner.cache.get(&0u8).is_none(), "C04,C12: a maintenance run on a cache above max_capacity must evict from the LRU end even when no operation is queued");
-    assert!(inner.cache.get(&1u8).is_some(), "C12,C03: only as many as needed");
-    assert!(inner.entry_count.load() == 1 && inner.weighted_size.load() == g.ws - g.w[0] as u64, "C10,C04: counters after the eviction");
+    chk!(inner.cache.get(&0u8).is_none(), "C04,C12: a maintenance run on a cache above max_capacity must evict from the LRU end even when no operation is queued");
+    chk!(inner.cache.get(&1u8).is_some(), "C12,C03: only as many as needed");
+    chk!(inner.entry_count.load() == 1 && inner.weighted_size.load() == g.ws - g.w[0] as u64, "C10,C04: counters after the eviction");
     kani::cover!(true, "end reached");
     std::mem::forget(st);
 }
@@ -1258,9 +1264,9 @@ fn l_evict_lru_terminates() {
         let mut deqs = inner.deques.lock().expect("lock poisoned");
         inner.evict_lru_entries(&mut deqs, 2, g.ws - 1, &mut counters);
         let (_, an, ok) = dq::walk::<KeyHashDate<u8>, { MAXN }>(&deqs.probation);
-        assert!(ok && an == 1, "C08: the node of a not-yet-removed entry must stay linked (its Remove op still points to it)");
+        chk!(ok && an == 1, "C08: the node of a not-yet-removed entry must stay linked (its Remove op still points to it)");
     }
-    assert!(counters.entry_count == g.ec && counters.weighted_size == g.ws, "C10: nothing evicted, nothing given back");
+    chk!(counters.entry_count == g.ec && counters.weighted_size == g.ws, "C10: nothing evicted, nothing given back");
     kani::cover!(true, "end reached");
     std::mem::forget(kv);
     std::mem::forget(st);
@@ -1310,39 +1316,39 @@ pub(crate) fn squiescent(inner: &In, nkeys: usize) -> (u64, u64) {
                 let ent: &Ent = r.value();
                 cnt += 1;
                 sum += ent.policy_weight() as u64;
-                assert!(ent.is_admitted(), "C10,C03,C04: after maintenance drained the queues a map entry is not admitted (never counted, never evictable, never expired by maintenance)");
-                assert!(!ent.is_dirty(), "C05,C06: after maintenance drained the queues a map entry is still flagged dirty (skipped by expiry for ever)");
+                chk!(ent.is_admitted(), "C10,C03,C04: after maintenance drained the queues a map entry is not admitted (never counted, never evictable, never expired by maintenance)");
+                chk!(!ent.is_dirty(), "C05,C06: after maintenance drained the queues a map entry is still flagged dirty (skipped by expiry for ever)");
                 match ent.access_order_q_node() {
                     Some(t) => {
                         let (p, _) = t.decompose();
                         let el = unsafe { &p.as_ref().element };
-                        assert!(**el.key() == key, "C08,C12: entry's access-order node carries another key");
+                        chk!(**el.key() == key, "C08,C12: entry's access-order node carries another key");
                         pao[k] = Some(p);
                     }
-                    None => assert!(false, "C08,C10: admitted entry without access-order node"),
+                    None => chk!(false, "C08,C10: admitted entry without access-order node"),
                 }
             }
         }
         k += 1;
     }
     let (nodes, an, ok) = dq::walk::<KeyHashDate<u8>, { MAXN }>(&deqs.probation);
-    assert!(ok, "C08: access-order deque is not a well-formed list");
-    assert!(an as u64 == cnt, "C10,C11,C08,C03: access-order nodes != entries in the map after the queues were drained (ghost node of a key that left the map pins its key and is counted for ever, or an entry lost its node)");
+    chk!(ok, "C08: access-order deque is not a well-formed list");
+    chk!(an as u64 == cnt, "C10,C11,C08,C03: access-order nodes != entries in the map after the queues were drained (ghost node of a key that left the map pins its key and is counted for ever, or an entry lost its node)");
     let mut i = 0;
     while i < MAXN {
         if i < an {
             let mut found = false;
             let mut k = 0;
             while k < MAXN { if pao[k].is_some() && pao[k] == nodes[i] { found = true; } k += 1; }
-            assert!(found, "C08,C11: a deque node belongs to no map entry");
+            chk!(found, "C08,C11: a deque node belongs to no map entry");
         }
         i += 1;
     }
     let (_, wn, wok) = dq::walk::<KeyDate<u8>, { MAXN }>(&deqs.write_order);
-    assert!(wok, "C08: write-order deque is not a well-formed list");
-    assert!(wn as u64 == if inner.is_write_order_queue_enabled() { cnt } else { 0 }, "C10,C11,C05: write-order nodes != entries in the map (iff ttl) after the queues were drained");
-    assert!(ec == cnt, "C10,C03: entry_count != number of entries physically held after maintenance");
-    assert!(ws == sum, "C10,C03,C04: weighted_size != sum of the weights physically held after maintenance");
+    chk!(wok, "C08: write-order deque is not a well-formed list");
+    chk!(wn as u64 == if inner.is_write_order_queue_enabled() { cnt } else { 0 }, "C10,C11,C05: write-order nodes != entries in the map (iff ttl) after the queues were drained");
+    chk!(ec == cnt, "C10,C03: entry_count != number of entries physically held after maintenance");
+    chk!(ws == sum, "C10,C03,C04: weighted_size != sum of the weights physically held after maintenance");
     (cnt, sum)
 }
 
@@ -1386,7 +1392,7 @@ fn l_burst(cfg: &SCfg, mode: u8, hot: u8, ops: &[BOp]) {
             }
             BOp::Get(k) => {
                 let got = st.b.get_with_hash(&k, IdH::h(k));
-                assert!(got == latest[k as usize], "C01,C03,C07: get during an un-synced burst must return the latest insert of the key (nothing after an invalidate)");
+                chk!(got == latest[k as usize], "C01,C03,C07: get during an un-synced burst must return the latest insert of the key (nothing after an invalidate)");
             }
         }
     }
@@ -1418,19 +1424,19 @@ fn l_burst(cfg: &SCfg, mode: u8, hot: u8, ops: &[BOp]) {
         let key = k as u8;
         match inner.cache.get(&key) {
             Some(r) => {
-                assert!(latest[k].is_some(), "C07,C01: a key invalidated after its latest insert is back in the map after maintenance");
-                assert!(Some(r.value().value) == latest[k], "C01: after maintenance the map holds a value other than the key's latest insert");
-                assert!(r.value().policy_weight() == g.weigh(k, latest[k].unwrap()), "C10,C04: entry weight is not the weigher's weight of the latest value");
+                chk!(latest[k].is_some(), "C07,C01: a key invalidated after its latest insert is back in the map after maintenance");
+                chk!(Some(r.value().value) == latest[k], "C01: after maintenance the map holds a value other than the key's latest insert");
+                chk!(r.value().policy_weight() == g.weigh(k, latest[k].unwrap()), "C10,C04: entry weight is not the weigher's weight of the latest value");
             }
             None => {
                 // a loss is legitimate only if the live weight ever exceeded the capacity (rejection / eviction)
                 let never_over = match g.cap { None => true, Some(c) => max_live_w <= c };
-                assert!(!(latest[k].is_some() && never_over), "C03: a live entry was dropped although the live weight never exceeded max_capacity");
+                chk!(!(latest[k].is_some() && never_over), "C03: a live entry was dropped although the live weight never exceeded max_capacity");
             }
         }
         k += 1;
     }
-    if let Some(c) = g.cap { assert!(sum <= c, "C04: resident weight above max_capacity after a whole maintenance run"); }
+    if let Some(c) = g.cap { chk!(sum <= c, "C04: resident weight above max_capacity after a whole maintenance run"); }
     kani::cover!(true, "end reached");
     std::mem::forget(st);
 }
@@ -1494,8 +1500,8 @@ fn l_upsert_admission_dirty_victim(second: bool) {
     // counted weight of the resident while its update is pending = the op's old weight (7), afterwards 3
     let wa: u64 = if second { 3 } else { 7 };
     let want = (if a_in { wa } else { 0 }) + (if b_in { 1 } else { 0 });
-    assert!(counters.entry_count == (a_in as u64) + (b_in as u64), "C10: entry_count != entries physically held after an admission over a victim with a pending update");
-    assert!(counters.weighted_size == want, "C10,C04,C03: weighted_size != weight physically held: a victim with a pending update was un-counted with the weight of its QUEUED update instead of the weight that had been counted for it");
+    chk!(counters.entry_count == (a_in as u64) + (b_in as u64), "C10: entry_count != entries physically held after an admission over a victim with a pending update");
+    chk!(counters.weighted_size == want, "C10,C04,C03: weighted_size != weight physically held: a victim with a pending update was un-counted with the weight of its QUEUED update instead of the weight that had been counted for it");
     kani::cover!(true, "end reached");
     std::mem::forget(st);
 }
@@ -1514,7 +1520,7 @@ sh!(l_upsert_admission_dirty_victim_both, l_upsert_admission_dirty_victim(true))
 use crate::common::concurrent::housekeeper::Housekeeper;
 fn should_apply_no_guard(_hk: &Housekeeper, _len: usize, _now: Instant) -> bool {
     let (r, w) = dashmap::verif_guards();
-    assert!(r == 0 && w == 0, "C09: a DashMap guard is still held when the operation reaches its housekeeping point (inline maintenance removes from the map: self-deadlock on the shard lock)");
+    chk!(r == 0 && w == 0, "C09: a DashMap guard is still held when the operation reaches its housekeeping point (inline maintenance removes from the map: self-deadlock on the shard lock)");
     unsafe { HK_POINTS += 1; }
     false
 }
@@ -1525,13 +1531,13 @@ fn c09_get_guard(cfg: &SCfg, j: usize) {
     let key = j as u8;
     let hidden = j >= cfg.n || st.g.hidden(j);
     let got = st.b.get_with_hash(&key, IdH::h(key));
-    assert!(got.is_some() == !hidden, "C01,C05,C06: get result");
-    assert!(unsafe { HK_POINTS } == 1, "C09: get must pass its housekeeping point exactly once (reads are applied inline when due)");
+    chk!(got.is_some() == !hidden, "C01,C05,C06: get result");
+    chk!(unsafe { HK_POINTS } == 1, "C09: get must pass its housekeeping point exactly once (reads are applied inline when due)");
     let (r, w) = dashmap::verif_guards();
-    assert!(r == 0 && w == 0, "C09: get returned while still holding a map guard");
+    chk!(r == 0 && w == 0, "C09: get returned while still holding a map guard");
     let _ = st.b.contains_key(&key);
     let (r, w) = dashmap::verif_guards();
-    assert!(r == 0 && w == 0, "C09: contains_key returned while still holding a map guard");
+    chk!(r == 0 && w == 0, "C09: contains_key returned while still holding a map guard");
     kani::cover!(true, "end reached");
     std::mem::forget(st);
 }
@@ -1565,16 +1571,16 @@ fn l_purge_fresh_front(cfg: &SCfg) {
     assert!(!st.b.contains_key(&0u8) && !st.b.contains_key(&1u8), "VERIF-BOUND: harness time class must hide both residents");
     let nv = Val { cls: 0, data: kani::any() };
     let (op, _) = st.b.do_insert_with_hash(Arc::new(0u8), IdH::h(0), nv);
-    assert!(st.b.contains_key(&0u8), "C07: a key re-inserted after invalidate_all must be retrievable at once");
+    chk!(st.b.contains_key(&0u8), "C07: a key re-inserted after invalidate_all must be retrievable at once");
     let mut counters = EvictionCounters::new(st.g.ec, st.g.ws);
     {
         let mut deqs = inner.deques.lock().expect("lock poisoned");
         inner.evict_expired(&mut deqs, 500, &mut counters);
     }
-    assert!(!st.b.contains_key(&1u8), "C07,C01: an entry hidden by invalidate_all is observable again after maintenance");
-    assert!(st.b.get_with_hash(&1u8, IdH::h(1)).is_none(), "C07,C01: get returns an invalidated value after maintenance");
-    assert!(st.b.contains_key(&0u8), "C07,C03: the re-inserted key was removed or hidden by maintenance");
-    assert!(st.b.get_with_hash(&0u8, IdH::h(0)) == Some(nv), "C01,C07: the re-inserted key must return its new value");
+    chk!(!st.b.contains_key(&1u8), "C07,C01: an entry hidden by invalidate_all is observable again after maintenance");
+    chk!(st.b.get_with_hash(&1u8, IdH::h(1)).is_none(), "C07,C01: get returns an invalidated value after maintenance");
+    chk!(st.b.contains_key(&0u8), "C07,C03: the re-inserted key was removed or hidden by maintenance");
+    chk!(st.b.get_with_hash(&0u8, IdH::h(0)) == Some(nv), "C01,C07: the re-inserted key must return its new value");
     kani::cover!(true, "end reached");
     std::mem::forget(op);
     std::mem::forget(st);
@@ -1604,8 +1610,8 @@ fn l_upsert_admission_nosketch() {
         let freq = inner.frequency_sketch.read().expect("lock poisoned");
         inner.handle_upsert(KeyHash::new(Arc::clone(&k), IdH::h(1)), TrioArc::clone(&ent), 0, 1, &mut deqs, &freq, &mut counters);
     }
-    assert!(inner.cache.get(&1u8).is_none() && inner.cache.get(&0u8).is_some(), "C13: with no popularity recorded a newcomer must not displace a resident");
-    assert!(counters.entry_count == g.ec && counters.weighted_size == g.ws, "C10: rejection changes nothing");
+    chk!(inner.cache.get(&1u8).is_none() && inner.cache.get(&0u8).is_some(), "C13: with no popularity recorded a newcomer must not displace a resident");
+    chk!(counters.entry_count == g.ec && counters.weighted_size == g.ws, "C10: rejection changes nothing");
     kani::cover!(true, "end reached");
     std::mem::forget(ent);
     std::mem::forget(st);
